@@ -286,26 +286,59 @@ Proof.
   pose proof (c12_worker_bound_from ls s s' (run_inv _ _ _ R) C O NS T' H). lia.
 Qed.
 
-(* the worker is never stuck: unless it has ended, one of its own steps is enabled *)
+(* the worker is never stuck, with ONE exception: asleep inside a transport read on a handle
+   that is still open (O6) - there it waits for the environment or for the local shutdown/close *)
 Lemma c12_worker_progress : forall s, not_alive (worker s) = false ->
+  (worker s = WBlocked /\ socket_open s = true) \/
   exists l, is_worker_label l = true /\ step s l <> None.
 Proof.
   intros s A. destruct (worker s) eqn:W; simpl in A; try discriminate.
-  - exists SelectBegin; unfold step; rewrite W; split; [reflexivity|discriminate].
-  - exists (Select true); unfold step; rewrite W; split; [reflexivity|discriminate].
-  - exists ReadBegin; unfold step; rewrite W; split; [reflexivity|discriminate].
-  - exists (Read RErr); unfold step; rewrite W; split; [reflexivity|discriminate].
-  - exists CbRaise; unfold step; rewrite W; split; [reflexivity|discriminate].
-  - exists (ChkClosing (closing s)); unfold step; rewrite W, Bool.eqb_reflx; simpl; split; [reflexivity|discriminate].
-  - exists (ChkClosing (closing s)); unfold step; rewrite W, Bool.eqb_reflx; simpl; split; [reflexivity|discriminate].
-  - exists ErrBroadcast; unfold step; rewrite W; split; [reflexivity|discriminate].
-  - exists ErrBroadcast; unfold step; rewrite W; split; [reflexivity|discriminate].
-  - destruct clean.
+  - right; exists SelectBegin; unfold step; rewrite W; split; [reflexivity|discriminate].
+  - right; exists (Select true); unfold step; rewrite W; split; [reflexivity|discriminate].
+  - right; exists ReadBegin; unfold step; rewrite W; split; [reflexivity|discriminate].
+  - right; exists (Read RErr); unfold step; rewrite W; split; [reflexivity|discriminate].
+  - destruct (socket_open s) eqn:O; [left; split; reflexivity|].
+    right; exists (Read RErr); unfold step; rewrite W, O; split; [reflexivity|discriminate].
+  - right; exists CbRaise; unfold step; rewrite W; split; [reflexivity|discriminate].
+  - right; exists (ChkClosing (closing s)); unfold step; rewrite W, Bool.eqb_reflx; simpl; split; [reflexivity|discriminate].
+  - right; exists (ChkClosing (closing s)); unfold step; rewrite W, Bool.eqb_reflx; simpl; split; [reflexivity|discriminate].
+  - right; exists ErrBroadcast; unfold step; rewrite W; split; [reflexivity|discriminate].
+  - right; exists ErrBroadcast; unfold step; rewrite W; split; [reflexivity|discriminate].
+  - right; destruct clean.
     + exists Exit; unfold step; rewrite W; split; [reflexivity|discriminate].
     + exists WorkerCloseCall; unfold step; rewrite W; split; [reflexivity|discriminate].
-  - destruct rest as [|c rest].
+  - right; destruct rest as [|c rest].
     + exists (CloseRet Worker); unfold step; rewrite W; destruct k; split; try reflexivity; discriminate.
     + exists (CStep Worker c (match c with JoinW => false | _ => true end)).
       split; [reflexivity|]. unfold step; rewrite W.
       destruct c; simpl; discriminate.
+Qed.
+
+(* once the handle is closed locally the worker is never stuck (O6: a sleeping read is woken) *)
+Lemma c12_worker_progress_closed : forall s, not_alive (worker s) = false -> socket_open s = false ->
+  exists l, is_worker_label l = true /\ step s l <> None.
+Proof.
+  intros s A O. destruct (c12_worker_progress s A) as [[_ X]|X]; [congruence | exact X].
+Qed.
+
+(* asleep inside a read on an open handle: NO step of the worker is enabled - neither the closing flag
+   nor anything else the library does short of shutting the handle down ends that read *)
+Lemma c12_blocked_needs_wakeup : forall s, worker s = WBlocked -> socket_open s = true ->
+  forall l, is_worker_label l = true -> step s l = None.
+Proof.
+  intros s W O l L. destruct l; simpl in L; try discriminate; try (destruct a; try discriminate);
+    unfold step; rewrite W; try reflexivity.
+  all: try (rewrite O; reflexivity).
+  all: destruct (negb (eqb b (closing s))); reflexivity.
+Qed.
+
+(* (O6) ... and once the handle is closed locally that read returns, without data *)
+Lemma c12_blocked_woken : forall s, worker s = WBlocked -> socket_open s = false ->
+  step s (Read RErr) = Some (w_worker s WRaised) /\
+  (is_ssh (tr s) = false -> step s (Read REof) = Some (w_worker s WAfterEof)) /\
+  (forall n, step s (Read (RData n)) = None) /\
+  step s Block = None /\ step s Unblock = None.
+Proof.
+  intros s W O. unfold step; rewrite W, O. repeat split; try reflexivity.
+  intro T; rewrite T; reflexivity.
 Qed.
